@@ -44,6 +44,9 @@ func c05Vars() map[string]mj.Recipe {
 		"any2":  mj.RAny(mj.RInt(0), mj.RStr("z")),
 		"arr":   {T: "array", Is: []int64{4, 5}},
 		"sarr":  {T: "sarray", Ss: []string{"p", "q"}},
+		"zarr":  {T: "array", Is: []int64{0, 0, 0}}, // arrays whose elements are all zero values still have elements
+		"zsarr": {T: "sarray", Ss: []string{"", ""}},
+		"pzarr": {T: "ptr", Elems: []mj.Recipe{{T: "array", Is: []int64{0, 0}}}},
 		"parr":  {T: "*[]int", Is: []int64{8, 9}},
 		"m1":    {T: "map[string]int", Keys: []string{"k"}, Is: []int64{1}},
 		"mN":    {T: "map[string]int", Keys: []string{"a", "b", "c"}, Is: []int64{1, 0, 3}},
@@ -91,6 +94,7 @@ type c05Subject struct {
 var c05Subjects = []c05Subject{
 	{"xs", true, 3, false, false, false}, {"x1", true, 1, false, false, false}, {"ss", true, 3, false, false, false}, {"anys", true, 8, false, false, false}, {"any2", true, 2, false, false, false},
 	{"arr", true, 2, false, false, false}, {"sarr", true, 2, false, false, false}, {"parr", true, 2, false, false, false},
+	{"zarr", true, 3, false, false, false}, {"zsarr", true, 2, false, false, false}, {"pzarr", true, 2, false, false, false},
 	{"m1", true, 1, false, false, false}, {"mN", true, 3, true, false, false}, {"mi", true, 1, false, false, false}, {"miN", true, 2, true, false, false}, {"many", true, 2, true, false, false},
 	{"ch", false, 3, false, false, true}, {"chs", false, 2, false, false, true}, {"rg", true, 2, false, false, true}, {"rp", false, 3, false, false, true}, {"stk", false, 3, false, false, true},
 	{"e_xs", true, 0, false, false, false}, {"e_any", true, 0, false, false, false}, {"e_m", true, 0, false, false, false}, {"e_ch", false, 0, false, false, false}, {"e_rg", true, 0, false, false, false}, {"e_rp", false, 0, false, false, false}, {"e_arr", true, 0, false, false, false},
